@@ -56,6 +56,8 @@ fn main() {
             jobs.push(Job { class: format!("directed:cf{}", cf), cfg: Cfg { combine: cf, io, ..Cfg::plain() }, steps });
         }
     }
+    // table names that differ only in what sanitize_table_name adds (their column catalogues live in `_meta_columns_<name>`)
+    jobs.extend(name_jobs(&args));
     let results = par_map(jobs, 8, |job: Job| { let obs = run_history(&job.cfg, &job.steps); (job, obs) });
     if lz4_defect {
         cases.push("probe:compaction-lz4-packed-strings-present", "cfg=4,8388608,1,1,1000,67108864", "MT=[]", LZ4_NOTE);
@@ -66,7 +68,7 @@ fn main() {
     for (job, obs) in results {
         for k in 0..obs.len() {
             let line = history_line(&job.cfg, &obs, k);
-            let note = if k + 1 == obs.len() || obs[k].dead { format!("{} | {}", describe(&job.cfg, &job.steps[..=k]), obs[k].detail) } else { String::new() };
+            let note = if k + 1 == obs.len() || obs[k].dead { format!("{} | {}", describe(&job.cfg, &job.steps[..=obs[k].step]), obs[k].detail) } else { String::new() };
             cases.push(&format!("{}:{}", job.class, obs[k].kind), &line, &obs[k].dump, &note);
         }
     }
